@@ -2,7 +2,7 @@
    Directives used: ExtrOcamlBasic only (bool, option, unit, list, prod, sumbool, sumor inductives;
    andb/orb inlined).  N, Z, positive, nat, Byte.byte stay Coq datatypes. *)
 From Coq Require Import ExtrOcamlBasic.
-From SE Require Import Spec.EscapeSpec Model.Line Model.Mapper Model.Cache Spec.MatchSpec Model.System Model.EventQueue Model.Relay.
+From SE Require Import Spec.EscapeSpec Model.Line Model.Mapper Model.Cache Spec.MatchSpec Model.System Model.EventQueue Model.Relay Model.Listener.
 Extraction Language OCaml.
 Extraction "model.ml" escape_metric_name escape_spec legal_name Byte.to_N Byte.of_N N.of_nat N.to_nat
   line_to_events f_of_bits f_to_bits f_add f_mul f_div f_ltb f_eqb f_of_Z f_to_int
@@ -10,4 +10,5 @@ Extraction "model.ml" escape_metric_name escape_spec legal_name Byte.to_N Byte.o
   first_match most_specific has_ambiguous_wildcard spec_lookup
   init_sys step counter_value gather_ok
   qinit do_queue do_tick
-  new_relay rstep.
+  new_relay rstep
+  packet_lines tcp_lines pq_new pq_step.
